@@ -637,4 +637,116 @@ U_LIMIT = Unit(P + '/compute_far_field-perfect-conductor-limit', ['Mininec.compu
                canaries=[Canary('reflected-ray-phase-not-mirrored', 'Mininec.compute_far_field', _ReflectedPhaseSign,
                                 [P + '/compute_far_field[perfect-conductor limit]/'])])
 
-UNITS = [U_READS, U_GROUND, U_REFL, U_LOOKUP, U_LOOKUP_LEMMA, U_FRESNEL, U_LIMIT]
+
+
+# ---------------------------------------------------------------- splitting a medium / a further medium, end to end
+def t_split_end_to_end(eng):
+    """The statements `pv = ...` ... `x34 = ...` of compute_far_field over real ground, run twice on the same symbolic
+    arrays (1 direction x 1 pulse): over one medium (impedance Z, height H) and over that medium split at an arbitrary
+    coordinate into two pieces with the same Z and H  [variant 0]; or followed by a further medium of other constants
+    whose boundary lies beyond the reflection point  [variant 1: the boundary coordinate is assumed >= the distance b9 the
+    code computes -- what b9 is, is the contract of the reflection-point slice].  Contract: the field components coincide."""
+    from . import C10
+    import pyvc.builtins as _B
+    n = P + '/compute_far_field[media end to end]/'
+    f, stmts = C10.radiation_slice(eng)
+    variant = eng.choose(2)
+    circular = eng.choose(2) == 1
+    w, g0 = fresh_real('w'), fresh_real('g0')
+    eng.assume(r_cmp('>', w, 0))
+    point = C10.sym_nd((1, 3), 'pt')
+    gr = [[False, False]]
+    sign, seg_len, dirvec = C10.sym_nd((1, 2), 'sg'), C10.sym_nd((1, 2), 'sl'), C10.sym_nd((1, 2, 3), 'dv')
+    cur = NDArr([fresh_cx('I0')])
+    phi, theta = [fresh_real('phi0')], [fresh_real('theta0')]
+    pw = fresh_real('power')
+    eng.assume(r_cmp('>', pw, 0))
+    Z1, Z2 = fresh_cx('Z1'), fresh_cx('Z2')
+    H1, H2 = fresh_real('H1'), fresh_real('H2')
+    X = fresh_real('boundary')
+    eng.assume(b_and(r_cmp('>=', X, 0), r_cmp('<=', X, 1000000)))
+    azi, zen = SObj('Angle', label='azi'), SObj('Angle', label='zen')
+    eng.summaries['Pulse_Container.__len__'] = lambda e, a, k: 1
+    eng.summaries['Mininec.image_iter'] = lambda e, a, k: SList([('conc', [1, -1])])
+    eng.summaries['Angle.angle_rad'] = lambda e, a, k: NDArr(list(phi)) if a[0] is azi else NDArr(list(theta))
+    deg = {id(azi): NDArr([fresh_real('phi_deg')]), id(zen): NDArr([fresh_real('theta_deg')])}
+    eng.summaries['Angle.angle_deg'] = lambda e, a, k: deg[id(a[0])]
+    eng.name_real_quotients = True
+    if variant == 1:
+        # the boundary of the first medium lies beyond the reflection point: stated on the distance b9 that the code has
+        # computed (its meaning is the contract of the reflection-point slice), at the statement that looks the medium up
+        def hook(e_, st, env_):
+            if isinstance(st, ast.Assign) and ast.unparse(st.targets[0]) == 'j2' and 'b9' in env_:
+                b9 = env_['b9']
+                while isinstance(b9, NDArr):
+                    b9 = b9.data[0]
+                while isinstance(b9, list):
+                    b9 = b9[0]
+                e_.assume(r_cmp('<=', b9, X))
+        eng.stmt_hook = hook
+    out = {}
+    for kind in ('one', 'two'):
+        m = SObj('Mininec', label='m-' + kind)
+        m.fields.update({'w': w, 'g0': g0, 'power': pw, 'current': cur,
+                         'boundary': AStr_lit('circular' if circular else 'linear')})
+        meds = [SObj('Medium', label=kind + str(k)) for k in range(1 if kind == 'one' else 2)]
+        for md in meds:
+            md.fields['is_ideal'] = False
+        m.fields['media'] = SList([('conc', meds)])
+        pv = SObj('Pulse_Container', label='pulses-' + kind)
+        m.fields['pulses'] = pv
+        pv.fields.update({'point': NDArr([list(r) for r in point.data]), 'sign': sign, 'seg_len': seg_len, 'dirvec': dirvec,
+                          'ground': NDArr(gr), 'inv_ground': NDArr([[r[1], r[0]] for r in gr])})
+        env = {'self': m, 'azimuth_angle': azi, 'zenith_angle': zen, 'nr': 0, 'rr': 0}
+        if kind == 'one':
+            env.update({'media_coord': NDArr([Fraction(1000000)]), 'media_height': NDArr([H1]), 'media_impedance': NDArr([Z1])})
+        elif variant == 0:
+            env.update({'media_coord': NDArr([X, Fraction(1000000)]), 'media_height': NDArr([H1, H1]), 'media_impedance': NDArr([Z1, Z1])})
+        else:
+            env.update({'media_coord': NDArr([X, Fraction(1000000)]), 'media_height': NDArr([H1, H2]), 'media_impedance': NDArr([Z1, Z2])})
+        eng.frames.append({'fref': eng.fref(C10.Q), 'env': env, 'qual': C10.Q, 'node': f})
+        try:
+            try:
+                eng.exec_block(stmts, env)
+            except PyRaise as ex:
+                if ex.cls == 'ZeroDivisionError':
+                    return          # a vanishing denominator (non-finite numpy result): outside this contract
+                raise
+        finally:
+            eng.frames.pop()
+        out[kind] = (env['h12'], env['x34'])
+    eng.cover('media-end-to-end-%d-%d' % (variant, circular))
+    what = ('splitting-a-medium-into-two-pieces-with-its-constants', 'a-further-medium-beyond-the-reflection-point')[variant]
+    for nm, k in (('E(theta)', 0), ('E(phi)', 1)):
+        a, b = out['one'][k], out['two'][k]
+        ok = isinstance(a, NDArr) and isinstance(b, NDArr) and a.shape == b.shape == (1, 1)
+        eng.oblige(n + what + '-leaves-' + nm + '-unchanged', ok and bterm(c_eq(to_cx(a.data[0][0]), to_cx(b.data[0][0]))))
+
+
+class _HeightOfFirst(ast.NodeTransformer):
+    """the phase reference height taken from the first medium whatever medium was selected"""
+
+    def visit_Subscript(self, node):
+        self.generic_visit(node)
+        if ast.unparse(node).replace(' ', '') == 'media_height[j2]':
+            node.slice = ast.parse('j2 * 0').body[0].value
+        return node
+
+
+class _ImpedanceOfLast(ast.NodeTransformer):
+    def visit_Subscript(self, node):
+        self.generic_visit(node)
+        if ast.unparse(node).replace(' ', '') == 'media_impedance[j2]':
+            node.slice = ast.parse('j2 * 0 + len (media_impedance) - 1').body[0].value
+        return node
+
+
+U_SPLIT = Unit(P + '/compute_far_field-media-end-to-end', ['Mininec.compute_far_field'], t_split_end_to_end, SCHEMA,
+               slices={'Mininec.compute_far_field': 'the statements `pv = ...` through `x34 = ...`, executed over one real medium and over two '
+                                                    '(media tables of the preamble supplied; no radials)'},
+               kind='bounded', notes='shape-bounded: 1 direction x 1 pulse, 1 or 2 media; values symbolic',
+               canaries=[Canary('selected-medium-impedance-ignored', 'Mininec.compute_far_field', _ImpedanceOfLast,
+                                [P + '/compute_far_field[media end to end]/a-further']),
+                         ])
+
+UNITS = [U_READS, U_GROUND, U_REFL, U_LOOKUP, U_LOOKUP_LEMMA, U_FRESNEL, U_LIMIT, U_SPLIT]
